@@ -47,7 +47,7 @@ def gen(ctx, name, text, simulate=None, depth=None):
     c = "Gen_c19_%s.cfg" % name
     open(ctx.path("spec", c), "w").write(text)
     cf = ctx.path("cases_%s.ndjson" % name)
-    r = ctx.tlc("Gen_c19", c, env={"CASE_FILE": cf}, workers=4, simulate=simulate, depth=depth, timeout=1500,
+    r = ctx.tlc("Gen_c19", c, env={"CASE_FILE": cf, "DICT_FILE": ctx.source_dict()}, workers=4, simulate=simulate, depth=depth, timeout=1500,
                 expect_ok=False)
     if r.invariant_violated or not r.ok:
         raise vp.Broken("pass M failed (%s): the transcribed declarations violate the property beyond the named "
@@ -71,7 +71,8 @@ def run(ctx):
                        "a measurement written without a database belongs to database \"\" (callers map it to the "
                        "default database, as ast.go documents)"]
     q = ctx.quick
-    parts = [("kinds", cfg("kinds"), None, None)]
+    dictfile = ctx.source_dict()
+    parts = [("kinds", cfg("kinds"), None, None), ("dict", cfg("dict"), None, None)]
     # pass M, stated once without the exclusion: the design must show the named deviation (and nothing else is
     # learnt from this run; cases are not emitted twice because the file name differs and is not driven)
     if q:
